@@ -83,6 +83,17 @@ class Check:
 
     # ---------------------------------------------------------------- finish
     def finish(self, level="proof", checker_cmd="", trusted_base=None, rule="", extra=None):
+        # replay the corpus of earlier failures of this property (demonstration programs of the
+        # seeded changes): implementation vs Model
+        try:
+            from . import core
+            before = len(self.disagreements)
+            n = core.corpus_leg(self, self.prop)
+            if n:
+                self.oblige(f"corpus: implementation = Model on the {n} demonstration programs of earlier seeded changes of this property",
+                            len(self.disagreements) == before, json.dumps(self.disagreements[before:before + 2])[:700])
+        except FileNotFoundError:
+            pass
         wall = time.time() - self.t0
         n_obl = len(self.obligations)
         n_ok = sum(1 for o in self.obligations if o[1])
